@@ -70,6 +70,56 @@ def judge(mtype, action, path, base, x):
     return ("accept", None), same
 
 
+def class_path_object(mtype, action, base, path, x):
+    """the payload as an object built from the 1.6 request/response class with nested v16 data-type objects
+    (ChargingProfile / ChargingSchedule / ChargingSchedulePeriod), value x at the position"""
+    from ocpp.charge_point import camel_to_snake_case
+    from ocpp.v16 import call, call_result, datatypes as dt
+    p = camel_to_snake_case(set_at(base, path, x))
+
+    def sched(d):
+        d = dict(d)
+        d["charging_schedule_period"] = [dt.ChargingSchedulePeriod(**pp) for pp in d["charging_schedule_period"]]
+        return dt.ChargingSchedule(**d)
+
+    def profile(d):
+        d = dict(d)
+        d["charging_schedule"] = sched(d["charging_schedule"])
+        return dt.ChargingProfile(**d)
+    p = dict(p)
+    if action == "SetChargingProfile":
+        p["cs_charging_profiles"] = profile(p["cs_charging_profiles"])
+        return call.SetChargingProfile(**p)
+    if action == "RemoteStartTransaction":
+        p["charging_profile"] = profile(p["charging_profile"])
+        return call.RemoteStartTransaction(**p)
+    p["charging_schedule"] = sched(p["charging_schedule"])
+    return call_result.GetCompositeSchedule(**p)
+
+
+def judge_class_path(mtype, action, path, base, x):
+    """as judge(), but the payload comes from data-type objects and goes through the library's own
+    serialisation (serialize_as_dict, snake_to_camel_case, remove_nones)"""
+    from ocpp.charge_point import remove_nones, serialize_as_dict, snake_to_camel_case
+    from ocpp.exceptions import OCPPError
+    from ocpp.messages import Call, CallResult, _validate_payload
+    obj = class_path_object(mtype, action, base, path, x)
+    wire = remove_nones(snake_to_camel_case(serialize_as_dict(obj)))
+    msg = Call("i", action, wire) if mtype == "Call" else CallResult("i", wire, action)
+    try:
+        _validate_payload(msg, "1.6")
+    except OCPPError as e:
+        return ("reject", e.code), True
+    except Exception as e:  # noqa: BLE001
+        return ("crash", type(e).__name__), True
+    back = json.loads(msg.to_json(), parse_float=decimal.Decimal)
+    cur = back[3] if mtype == "Call" else back[2]
+    for k in path:
+        cur = cur[k]
+    want = decimal.Decimal(repr(x)) if isinstance(x, float) else x
+    return ("accept", None), (cur == want and isinstance(cur, int) == isinstance(x, int))
+
+
 def sweep_worker(args):
     os.environ.setdefault("PYTHONHASHSEED", "0")
     pos_i, values = args
@@ -138,7 +188,26 @@ def body_factory(tier, seed):
                 rep.violation("C14:%s:%s:%s:%r" % (mtype, action, path[-1], x), what,
                               {"kind": "tenth", "mtype": mtype, "action": action, "path": list(path), "value": x,
                                "value_is_decimal": isinstance(x, decimal.Decimal), "implementation": v, "wire_same_digits": wire_ok})
-        total = sum(per.values())
+        # the same judgement when the value travels inside the 1.6 data-type classes
+        rng2 = random.Random(seed + 77)
+        n_cls = 0
+        for pos_i, (mtype, action, path) in enumerate(POSITIONS):
+            base = base_payload(mtype, action)
+            vals = [21.4, 21.45, 0.15, 4.11, 16.05, 7, 0.3, 100.01, 2.675, -0.1, 99999999.9]
+            vals += [rng2.randrange(-99999, 99999) / 10 for _ in range(40)] + [rng2.randrange(-99999, 99999) / 100 for _ in range(40)]
+            for x in vals:
+                v, wire_ok = judge_class_path(mtype, action, path, base, x)
+                n_cls += 1
+                fd = frac_digits(x)
+                want = "accept" if fd <= 1 else "reject"
+                if v[0] != want or (want == "reject" and v[1] != "FormatViolation") or not wire_ok:
+                    rep.violation("C14:class-path:%s:%s:%s:%r" % (mtype, action, path[-1], x),
+                                  "value %r (%d fractional digits) given through the v16 data-type classes in %s %s %s: %s%s" % (
+                                      x, fd, mtype, action, "/".join(map(str, path)), v, "" if wire_ok else "; written with different digits"),
+                                  {"kind": "tenth-class-path", "mtype": mtype, "action": action, "path": list(path), "value": x,
+                                   "implementation": v, "wire_same_digits": wire_ok})
+        rep.coverage["class_path_evaluations"] = n_cls
+        total = sum(per.values()) + n_cls
         rep.coverage["evaluations"] += total
         rep.coverage["sweep_per_position"] = {"/".join([POSITIONS[i][1]] + [str(x) for x in POSITIONS[i][2]]): per[i] for i in per}
         rep.coverage["exhaustive_tenths"] = "k/10 for |k| <= 100000 in %s position(s), |k| <= 3000 in the others" % (
@@ -172,6 +241,13 @@ def run(rep, tier, seed):
 
 def replay(d):
     mtype, action, path, x = d["mtype"], d["action"], tuple(d["path"]), d["value"]
+    if d.get("kind") == "tenth-class-path":
+        v, wire_ok = judge_class_path(mtype, action, path, base_payload(mtype, action), x)
+        fd = frac_digits(x)
+        print("value %r via the data-type classes: %d fractional digits -> %s, wire digits same: %s" % (x, fd, v, wire_ok))
+        ok = v[0] == ("accept" if fd <= 1 else "reject") and wire_ok
+        print("HOLDS" if ok else "FAILS")
+        return 0 if ok else 1
     if d.get("value_is_decimal"):
         x = decimal.Decimal(str(x).replace("Decimal('", "").replace("')", ""))
     v, wire_ok = judge(mtype, action, path, base_payload(mtype, action), x)
